@@ -125,6 +125,27 @@ func (l c07Lister) list(bucket, prefix, delim, start string, max int32) c07Page 
 	return pg
 }
 
+// listBoth is a V2 page request that carries start-after AND a continuation token, as SDK paginators send it.
+func (l c07Lister) listBoth(bucket, prefix, delim, startAfter, token string, max int32) c07Page {
+	pg := c07Page{Sizes: map[string]int64{}, ETags: map[string]string{}}
+	res, err := l.st.A.ListObjectsV2(l.st.ctx(), &s3.ListObjectsV2Input{Bucket: &bucket, Prefix: &prefix, Delimiter: &delim, ContinuationToken: &token, StartAfter: &startAfter, MaxKeys: &max})
+	if err != nil {
+		pg.Err = err.Error()
+		return pg
+	}
+	for _, o := range res.Contents {
+		pg.Objs = append(pg.Objs, getS(o.Key))
+		pg.Entries = append(pg.Entries, lentry{getS(o.Key), false})
+	}
+	for _, c := range res.CommonPrefixes {
+		pg.CPs = append(pg.CPs, getS(c.Prefix))
+		pg.Entries = append(pg.Entries, lentry{getS(c.Prefix), true})
+	}
+	pg.Truncated = res.IsTruncated != nil && *res.IsTruncated
+	pg.Next = getS(res.NextContinuationToken)
+	return pg
+}
+
 func (l c07Lister) listToken(bucket, prefix, delim, token string, max int32) c07Page {
 	if l.api == "v1" {
 		return l.list(bucket, prefix, delim, token, max)
@@ -424,6 +445,48 @@ func C07(r *ck.Run) {
 							}
 							oks := check(p.Entries, req, opt, "start", start, map[string]any{"objects": p.Objs, "common_prefixes": p.CPs})
 							r.Outcome(fmt.Sprintf("start:%v", oks))
+							if api == "v2" && len(req) > 1 {
+								// a paginated walk from this start position that re-sends start-after with every token
+								for _, mk := range []int32{1, 2} {
+									var all []lentry
+									token, pages, okw := "", 0, true
+									for {
+										var p c07Page
+										if pages == 0 {
+											p = l.list("lb", prefix, delim, start, mk)
+										} else {
+											p = l.listBoth("lb", prefix, delim, start, token, mk)
+										}
+										r.Add("evaluations", 1)
+										pages++
+										if p.Err != "" {
+											report("listing-error", lentry{}, "start-walk", start, map[string]any{"error": p.Err})
+											okw = false
+											break
+										}
+										all = append(all, p.Entries...)
+										if !p.Truncated {
+											break
+										}
+										if p.Next == "" {
+											report("truncated-without-marker", lentry{}, "start-walk", start, nil)
+											okw = false
+											break
+										}
+										token = p.Next
+										if pages > len(want)+3 {
+											report("pagination-does-not-terminate", lentry{}, "start-walk", start, map[string]any{"collected": fmtEntries(all)})
+											okw = false
+											break
+										}
+									}
+									r.Distinct(fmt.Sprintf("%v|%s|%s|start=%s|walk%d|%s", sub, prefix, delim, start, mk, api))
+									if okw {
+										okw = check(all, req, opt, "start-walk", start, map[string]any{"collected": fmtEntries(all), "max-keys": mk})
+									}
+									r.Outcome(fmt.Sprintf("start-walk:%v", okw))
+								}
+							}
 						}
 					}
 				}
